@@ -65,6 +65,8 @@ def build(spec):
     ws = [float("-inf") if w == "-inf" else fl(w) for w in spec.get("weights", [])]
     if spec.get("num") == "int":
         ws = [int(Fraction(w)) for w in spec["weights"]]
+    if spec.get("num") == "fraction":       # exact rational scores (SoftmaxDistribution only)
+        ws = [Fraction(w) for w in spec["weights"]]
     rep = spec.get("rep")
     if k == "dict":
         if rep == "pairs_list":
